@@ -64,6 +64,9 @@ SafeWithoutConflictP(i) == (Tr[i].act.a = "Checker" /\ Tr[i].skip = "") =>
 CancelWarrantedP(i) == (Tr[i].act.a = "Block" /\ Tr[i].skip = "") =>
    \A j \in (Len(Tr[i-1].st.dl) + 1)..Len(Tr[i].st.dl) : LET n == Tr[i].st.dl[j]  p == Tr[i-1].st IN
       (n.canc /\ ~p.st[n.t].canc) => \E k \in 1..Len(Blk[Tr[i].act.t]) : LET t2 == Blk[Tr[i].act.t][k] IN t2 # n.t /\ Ins[t2] \cap Ins[n.t] # {}
+\* C12: what an untrusted connection sends before it has been verified to be on this node's chain changes nothing
+UnverifiedIgnoredP(i) == (Tr[i].act.a \in {"Arrive", "Inv"} /\ Tr[i].act.s \in {"NU", "NX"} /\ Tr[i].skip = "") =>
+   (Tr[i].st.q = Tr[i-1].st.q /\ Tr[i].st.mp = Tr[i-1].st.mp /\ Tr[i].st.un = Tr[i-1].st.un /\ Len(Tr[i].st.dl) = Len(Tr[i-1].st.dl))
 \* C12: trust (the basis of a safe report) only comes from the trusted connection or a local submission
 TrustedSource(j, t) == \/ (Tr[j].act.a = "Arrive" /\ Tr[j].act.t = t /\ Tr[j].act.s \in {"TT", "TX", "LOC"})
                        \/ (Tr[j].act.a = "Inv" /\ Tr[j].act.t = t /\ Tr[j].act.s = "TT")
@@ -90,6 +93,7 @@ Judge(i) ==
   \cup One("BlockDelivers", i, Tr[i].act.a = "init" \/ BlockStepP(i))
   \cup One("CancelOnConfirm", i, Tr[i].act.a = "init" \/ CancelP(i))
   \cup One("SafeWithoutConflict", i, Tr[i].act.a = "init" \/ SafeWithoutConflictP(i))
+  \cup One("UnverifiedIgnored", i, Tr[i].act.a = "init" \/ UnverifiedIgnoredP(i))
   \cup One("CancelWarranted", i, Tr[i].act.a = "init" \/ CancelWarrantedP(i))
 
 PInit == Init /\ l = 0 /\ bad = {}
